@@ -32,7 +32,19 @@ def runHistoryNoReset (tbl : Table) (alg : AtomAlg A) (steps : List (List String
   | st, [] => st
   | st, s :: h => runHistoryNoReset tbl alg steps (solveFrom tbl alg steps st s).1 h
 
-/-! ### everything the instance carries from call to call -/
+/-- a history in which every call runs under its own atom algebra: an atom class whose constructor
+    reads variables that change between the calls (the `foo`/`bar` atom of the documentation) -/
+def runHistoryW (tbl : Table) (steps : List (List String × Otype)) :
+    Bufs A → List (AtomAlg A × List Char) → Bufs A
+  | st, [] => st
+  | st, (alg, s) :: h => runHistoryW tbl steps (solveI tbl alg steps st s).1 h
+
+/-! ### everything the instance carries from call to call
+
+The persistent state of an instance is exactly what `__init__` creates: `tokens` (with `atom`,
+`left`, `right`), `operators`, `steps`, and `expr` once a call was made.  The correspondence
+compares `vars(solver)` and `vars(solver.tokens)` with this list after every history, so a new
+persistent field (a cache, say) is noticed. -/
 
 /-- The attributes of an `ExpressionSolver` a call writes: the token buffers and `self.expr`
     (its `.expr` text; absent before the first call).  `operators`, `steps` and the atom class are
